@@ -151,7 +151,7 @@ pub fn run(ctx: &Ctx) -> (Report, Meta) {
     )
     .assume("closed-form solutions evaluated in f64; amplification factor from the closed-form sensitivity d u(t)/d u0, times cond(P) of the mixing")
     .assume("K_m calibrated on the unchanged tree (>= 10x the worst ratio observed over >= 5 seeds at the thorough tier); GBS reference accepted only if the H and H/2 runs agree to 1e-12")
-    .thresholds(json!({"K_RK23": k_method(Method::RK23), "K_DOPRI5": k_method(Method::DOPRI5), "K_DOP853": k_method(Method::DOP853), "K_RADAU": k_method(Method::RADAU), "K_BDF": k_method(Method::BDF), "q90_limits (3x the value observed on the unchanged tree, stable to +-20% over seeds)": {"RK23": 2.0, "DOPRI5": 0.35, "DOP853": 0.6, "RADAU": 0.6, "BDF": 2.5}, "ladder_slope_min": 0.5, "one_decade_regression": "error x5 while the tighter run is above half its bound", "rk4_order_min": 3.6}))
+    .thresholds(json!({"K_RK23": k_method(Method::RK23), "K_DOPRI5": k_method(Method::DOPRI5), "K_DOP853": k_method(Method::DOP853), "K_RADAU": k_method(Method::RADAU), "K_BDF": k_method(Method::BDF), "q90_limits (3x the value observed on the unchanged tree, stable to +-20% over seeds)": {"RK23": 2.0, "DOPRI5": 0.35, "DOP853": 0.6, "RADAU": 0.6, "BDF": 2.5}, "ladder_slope_min (secant over >= 3 decades)": 0.4, "one_decade_regression": "error x5 while the tighter run is above half its bound", "rk4_order_min": 3.6}))
     .floor("samples_checked", 20000)
     .floor("runs_checked", 1200)
     .floor("ladders_checked", 40)
@@ -384,14 +384,22 @@ pub fn run(ctx: &Ctx) -> (Report, Meta) {
         let case = json!({"method": m, "problem": prob.describe(), "x0": x0, "xend": xend, "tolerances": tols, "errors": errs, "ratios_to_bound": ratios, "vector_tolerances": vector});
         // slope above the rounding floor
         let floor = 100.0 * f64::EPSILON * yscale * (1.0 + amp);
-        // only tolerances at which the error is not already orders of magnitude below its bound take part
-        // (an easy problem solved with the minimal number of steps cannot improve further)
-        let pts: Vec<(f64, f64)> = (0..tols.len()).filter(|&k| errs[k] > floor && ratios[k] >= 0.01).map(|k| (tols[k].ln(), errs[k].ln())).collect();
-        if pts.len() >= 4 {
-            let s = slope(&pts.iter().map(|p| p.0).collect::<Vec<_>>(), &pts.iter().map(|p| p.1).collect::<Vec<_>>());
-            rep.worst(&format!("ladder_slope_deficit_{}", m), 1.0 - s);
-            if s < 0.5 {
-                rep.violate(&format!("C01/ladder_slope/{}/{}", m, if nn >= 4 { "dim4-8" } else { "dim1-3" }), format!("errors shrink like tol^{:.2} over the tolerance ladder (dimension {})", s, nn), &case_id, case.clone());
+        // "shrinks roughly in proportion": secant slope of log err vs log tol between the first tolerance at which the
+        // error is within a factor 1000 of its bound (an easy problem solved with the minimal number of steps cannot
+        // improve before that) and the tightest tolerance above the rounding floor, over at least three decades.
+        // (A least-squares fit over few points is dominated by the irregularity of single runs.)
+        let first = (0..tols.len()).find(|&k| errs[k] > floor && ratios[k] >= 1e-3);
+        let last = (0..tols.len()).rev().find(|&k| errs[k] > floor);
+        if let (Some(a), Some(b)) = (first, last) {
+            if b >= a + 3 {
+                let s = (errs[a].ln() - errs[b].ln()) / (tols[a].ln() - tols[b].ln());
+                rep.worst(&format!("ladder_slope_deficit_{}", m), 1.0 - s);
+                rep.count("ladder_slopes_judged", 1);
+                // verdict on the distribution (below): a single ladder may end in a blind spot of an estimator
+                rep.push(&format!("ladder_slope_{}_{}", m, if nn >= 4 { "dim4-8" } else { "dim1-3" }), s);
+                if s < -0.25 {
+                    rep.violate(&format!("C01/ladder_slope/{}/{}", m, if nn >= 4 { "dim4-8" } else { "dim1-3" }), format!("errors GROW like tol^{:.2} between tol = {:e} and {:e} (dimension {})", s, tols[a], tols[b], nn), &case_id, case.clone());
+                }
             }
         }
         for k in 1..tols.len() {
@@ -468,9 +476,7 @@ pub fn run(ctx: &Ctx) -> (Report, Meta) {
             rep.nontrivial(crate::util::hash_str(&format!("rk4{}{}", i, ctx.seed)));
             let cls = format!("{}{}", if dividing { "dividing_step" } else { "non_dividing_step" }, if with_teval { "_t_eval" } else { "" });
             by_class.entry(cls.clone()).or_default().push(s);
-            if s < 1.5 {
-                rep.violate(&format!("C01/rk4_fourth_order/RK4/{}", cls), format!("RK4 global error scales like h^{:.2} under step refinement", s), &case_id, json!({"problem": prob.describe(), "x0": x0, "xend": xend, "log_h": lh, "log_err": le}));
-            }
+            let _ = (&case_id, &le); // verdict per class on the median below (single problems are irregular)
         } else {
             rep.inconclusive("rk4_too_few_points");
         }
@@ -559,6 +565,21 @@ pub fn run(ctx: &Ctx) -> (Report, Meta) {
     // err5^2/sqrt(err5^2 + 0.01 err3^2) collapses when err5 happens to cross zero), but the bulk of the runs
     // must sit at the tolerance level: the 90 % quantile of the per-run worst ratio is bounded per method
     if ctx.only.is_none() {
+        // ladder slopes: the lower decile per method and dimension class must show errors shrinking with the tolerance
+        for &m in ADAPTIVE.iter() {
+            for dc in ["dim1-3", "dim4-8"] {
+                let key = format!("ladder_slope_{}_{}", mname(m), dc);
+                let nl = rep.series.get(&key).map(|v| v.len()).unwrap_or(0);
+                if nl >= 10 {
+                    let q10 = rep.quantile(&key, 0.1).unwrap();
+                    let q50 = rep.quantile(&key, 0.5).unwrap();
+                    rep.worst(&format!("ladder_slope_q10_deficit_{}_{}", mname(m), dc), 1.0 - q10);
+                    if q10 < 0.55 {
+                        rep.violate(&format!("C01/ladder_slope/{}/{}", mname(m), dc), format!("tightening the tolerance does not shrink the error in proportion: lower decile of the ladder slopes is {:.2} (median {:.2}, {} ladders)", q10, q50, nl), &format!("ladderq/{}/{}", mname(m), dc), json!({"method": mname(m), "q10": q10, "q50": q50, "ladders": nl}));
+                    }
+                }
+            }
+        }
         for &m in ADAPTIVE.iter() {
             let key = format!("ratio_{}", mname(m));
             if let (Some(q90), Some(q50)) = (rep.quantile(&key, 0.9), rep.quantile(&key, 0.5)) {
